@@ -13,7 +13,7 @@ real dispatcher emits them lazily through `remaining_content_start`; the tiling 
 -/
 import LolHtml.Model.ElementOps
 
-namespace LolHtml.Model
+namespace LolHtml.EditModel
 
 /-- A token of the source document as the lexer reports it. -/
 inductive SrcToken
@@ -394,4 +394,4 @@ def rewrite (H : List Handler) (enc : Enc) (toks : List SrcToken) : St × Bytes 
   let e := finish H enc r.1
   (e.1, r.2.flatten ++ e.2)
 
-end LolHtml.Model
+end LolHtml.EditModel
